@@ -18,6 +18,7 @@ pub const M10: u32 = 1 << 8; // rebuild identity
 pub const M13: u32 = 1 << 9; // String vs SmallString differential
 pub const M16: u32 = 1 << 10; // serde
 pub const M12: u32 = 1 << 11; // checksum typed read-back
+pub const M18: u32 = 1 << 12; // combined-name inverse on typed values
 
 pub fn case_string(flavor: &str, input: &str) -> Value {
     json!({"engine": "string", "flavor": flavor, "input": input})
@@ -501,6 +502,11 @@ impl StringEval {
             }
             if self.mon & M08 != 0 {
                 nt |= m08(s, &gs, &ts, acc);
+            }
+            if self.mon & M18 != 0 {
+                if let Outcome::Ok(p) = &ts {
+                    nt |= crate::sweeps::c18_inverse(p, &case_string("PackageType", s), acc);
+                }
             }
         }
         if self.prop == "C06" {
